@@ -1,7 +1,8 @@
 (* C02_gen.v — SeqNumRange.Limit / Contains / Overlaps as regenerated from pkg/types/ccipocr3/generic_types.go on
    this run (VerifGen.Leaf) against the hand-written model (Model/SeqRange.v) and the C02 statements.
    A SeqNumRange is the pair (start, end); all values are N, the Go uint64 operators are add64 / sub64. *)
-Require Import Verif.Model.Base Verif.Proofs.BaseP Verif.Model.SeqRange Verif.Proofs.SeqRangeP.
+Require Import Verif.Model.Base Verif.Proofs.BaseP Verif.Model.SeqRange Verif.Proofs.SeqRangeP
+               Verif.Model.CommitMerkle Verif.Proofs.CommitMerkleP.
 Require Import VerifGen.Leaf VerifGen.GenTac.
 From Coq Require Import ZArith NArith Bool Lia ZifyN ZifyNat ZifyBool.
 Ltac Zify.zify_post_hook ::= Z.div_mod_to_equations.
@@ -46,7 +47,147 @@ Theorem gen_overlaps_spec : forall s e s' e',
 Proof. gen_auto. Qed.
 Print Assumptions gen_overlaps_spec.
 
+(* ================= second tier: msgsCoverRange and the hashing loop of computeMerkleRoot =================
+   commit/merkleroot/observation.go.  A message is, for msgsCoverRange, its sequence number; for computeMerkleRoot
+   the pair (sequence number, identity of the rest) and the message hasher is a function [hash] of that pair.
+   computeMerkleRoot is translated up to the call of merklemulti.NewTree (table: Cut) and yields the leaf hashes. *)
+
+(* ---------- msgsCoverRange ---------- *)
+Lemma gen_msgs_cover_range_loop_spec : forall l s e,
+  gen_msgs_cover_range_loop (s, e) l =
+  if forallb (fun q => N.leb s q && N.leb q e) l then Ok tt else Err.
+Proof.
+  induction l as [|q l IH]; intros s e; gen_step gen_msgs_cover_range_loop; [reflexivity|].
+  rewrite IH. cbn [forallb]. gen_auto.
+Qed.
+
+(* (a) generated = modelled.  len(msgs) is a Go int: the list is shorter than 2^63 *)
+Theorem gen_msgs_cover_range_eq : forall (ms : list msg) s e,
+  (Z.of_nat (length ms) < 2 ^ 63)%Z ->
+  gen_msgs_cover_range (map m_seq ms) (s, e) = if covers ms s e then Ok tt else Err.
+Proof.
+  intros ms s e Hlen. unfold gen_msgs_cover_range. rewrite gen_msgs_cover_range_loop_spec.
+  rewrite map_length, forallb_map'. unfold covers.
+  destruct ms as [|m ms']; [cbn [length map forallb]; gen_auto|].
+  cbn [length] in *. destruct (forallb (fun x : msg => N.leb s (m_seq x) && N.leb (m_seq x) e) (m :: ms')); gen_auto.
+Qed.
+Print Assumptions gen_msgs_cover_range_eq.
+
+(* (b) what an accepted read is, over the generated definition (covers_iff) *)
+Theorem C02_covers_gen : forall (ms : list msg) s e,
+  u64 e -> (Z.of_nat (length ms) < 2 ^ 63)%Z ->
+  (gen_msgs_cover_range (map m_seq ms) (s, e) = Ok tt <->
+   (s <= e)%N /\ N.of_nat (length ms) = (e - s + 1)%N /\ Forall (fun m => (s <= m_seq m <= e)%N) ms).
+Proof.
+  intros ms s e He Hlen. rewrite (gen_msgs_cover_range_eq ms s e Hlen), <- (covers_iff ms s e He).
+  destruct (covers ms s e); split; congruence.
+Qed.
+Print Assumptions C02_covers_gen.
+
+(* ---------- computeMerkleRoot up to the tree ---------- *)
+Section Hashes.
+  Variable hash : N * N -> res N.
+  (* the message hasher either answers or fails; it does not crash the plugin *)
+  Hypothesis hash_total : forall m, hash m = Err \/ exists x, hash m = Ok x.
+
+  Definition to_msg (m : N * N) : msg :=
+    (fst m, 0%N, match hash m with Ok x => Some x | _ => None end).
+
+  Lemma gen_compute_root_hashes_loop_spec : forall l i prev acc,
+    (0 <= i)%Z -> ((0 < i)%Z <-> prev <> None) ->
+    gen_compute_root_hashes_loop hash l i prev acc =
+    match hash_consecutive (option_map fst prev) (map to_msg l) with
+    | Some hs => Ok (acc ++ hs)
+    | None => Err
+    end.
+  Proof.
+    induction l as [|m l IH]; intros i prev acc Hi Hp; gen_step gen_compute_root_hashes_loop;
+      cbn [map hash_consecutive].
+    - now rewrite app_nil_r.
+    - assert (Hn : forall a, gen_compute_root_hashes_loop hash l (Z.add i 1) (Some m) a =
+                             match hash_consecutive (Some (fst m)) (map to_msg l) with
+                             | Some hs => Ok (a ++ hs) | None => Err end).
+      { intros a. rewrite IH; [reflexivity|lia|]. split; [discriminate|lia]. }
+      unfold m_seq, m_hash, to_msg at 1 2 3. cbn [fst snd].
+      destruct (Z.ltb_spec 0 i) as [Hpos|Hz].
+      + destruct prev as [p|]; [|exfalso; apply (proj1 Hp Hpos); reflexivity].
+        cbn [option_map]. unfold succ64.
+        destruct (N.eqb (fst m) (add64 (fst p) 1)); cbn [negb]; [|reflexivity].
+        destruct (hash_total m) as [E|[x E]]; rewrite E; [reflexivity|].
+        rewrite Hn. destruct (hash_consecutive (Some (fst m)) (map to_msg l)); [|reflexivity].
+        now rewrite <- app_assoc.
+      + destruct prev as [p|]; [exfalso; assert (0 < i)%Z by (apply Hp; discriminate); lia|].
+        cbn [option_map].
+        destruct (hash_total m) as [E|[x E]]; rewrite E; [reflexivity|].
+        rewrite Hn. destruct (hash_consecutive (Some (fst m)) (map to_msg l)); [|reflexivity].
+        now rewrite <- app_assoc.
+  Qed.
+
+  (* (a) generated = modelled: sort by sequence number, consecutive under the uint64 successor, hash in order *)
+  Theorem gen_compute_root_hashes_eq : forall ms,
+    gen_compute_root_hashes hash ms =
+    match hash_consecutive None (sort_by seq_le (map to_msg ms)) with Some hs => Ok hs | None => Err end.
+  Proof.
+    intros ms. unfold gen_compute_root_hashes. cbv zeta.
+    rewrite gen_compute_root_hashes_loop_spec; [|lia|split; [lia|intros H; now elim H]].
+    cbn [option_map app].
+    rewrite (sort_by_map to_msg (fun a b => N.leb (fst a) (fst b)) seq_le); [reflexivity|].
+    intros a b. reflexivity.
+  Qed.
+
+  (* (b) the leaf hashes are returned exactly for a gap-free read, in sequence order (hash_consecutive_iff) *)
+  Theorem C02_hashes_gen : forall ms hs,
+    gen_compute_root_hashes hash ms = Ok hs <->
+    (map m_hash (sort_by seq_le (map to_msg ms)) = map Some hs /\
+     chain_ok None (map m_seq (sort_by seq_le (map to_msg ms)))).
+  Proof.
+    intros ms hs. rewrite gen_compute_root_hashes_eq, <- hash_consecutive_iff.
+    destruct (hash_consecutive None (sort_by seq_le (map to_msg ms))); split; congruence.
+  Qed.
+
+  (* (b') C02_root_exact with both generated checks in place of the modelled ones: the observation of one range *)
+  Definition gen_observe_one (h : N -> N -> N) (zero k s e : N) (ms : list (N * N)) (addr : option N) : option root_obs :=
+    match gen_msgs_cover_range (map fst ms) (s, e) with
+    | Ok tt =>
+        match gen_compute_root_hashes hash ms with
+        | Ok hs => match mroot h zero hs with
+                   | Some r => match addr with Some a => Some (k, (s, e), a, r) | None => None end
+                   | None => None
+                   end
+        | _ => None
+        end
+    | _ => None
+    end.
+
+  Theorem C02_root_exact_gen : forall h zero k s e ms addr k' s' e' a r,
+    u64 e -> (Z.of_nat (length ms) < 2 ^ 63)%Z ->
+    (gen_observe_one h zero k s e ms addr = Some (k', (s', e'), a, r) <->
+     k' = k /\ s' = s /\ e' = e /\ addr = Some a /\
+     exists hs, complete_read (map to_msg ms) s e hs /\ mroot h zero hs = Some r).
+  Proof.
+    intros h zero k s e ms addr k' s' e' a r He Hlen.
+    rewrite <- (observe_one_iff h zero k s e (map to_msg ms) addr k' s' e' a r He).
+    unfold gen_observe_one, observe_one, observe_one_with, compute_root. cbn [andb].
+    replace (map fst ms) with (map m_seq (map to_msg ms)) by (rewrite map_map; reflexivity).
+    rewrite gen_msgs_cover_range_eq by (rewrite map_length; exact Hlen).
+    rewrite gen_compute_root_hashes_eq.
+    destruct (covers (map to_msg ms) s e); cbn [negb]; [|tauto].
+    destruct (hash_consecutive None (sort_by seq_le (map to_msg ms))); tauto.
+  Qed.
+End Hashes.
+Print Assumptions gen_compute_root_hashes_eq.
+Print Assumptions C02_hashes_gen.
+Print Assumptions C02_root_exact_gen.
+
 Example C02_gen_nonvacuous :
   gen_limit (100, 110)%N 10 = (100, 109)%N /\ gen_limit (0%N, max64) 256 = (0, 255)%N /\
   gen_limit ((max64 - 3)%N, max64) 256 = ((max64 - 3)%N, max64) /\ gen_limit (7, 7)%N 1 = (7, 7)%N.
+Proof. vm_compute. repeat split. Qed.
+
+Example C02_gen_loops_nonvacuous :
+  gen_msgs_cover_range [5; 7; 6]%N (5, 7)%N = Ok tt /\ gen_msgs_cover_range [5; 6]%N (5, 7)%N = Err /\
+  gen_msgs_cover_range [5; 6; 8]%N (5, 7)%N = Err /\
+  gen_compute_root_hashes (fun m => Ok (snd m)) [(6, 60); (5, 50); (7, 70)]%N = Ok [50; 60; 70]%N /\
+  gen_compute_root_hashes (fun m => Ok (snd m)) [(5, 50); (5, 51); (7, 70)]%N = Err /\
+  gen_compute_root_hashes (fun m => Ok (snd m)) [(5, 50); (7, 70)]%N = Err.
 Proof. vm_compute. repeat split. Qed.
